@@ -2,8 +2,8 @@
     reaching every outcome the theorems speak about; then the round-1 glue examples. *)
 From Coq Require Import List NArith ZArith Bool String.
 From ApiFu Require Import Base.Sexp.
-From ApiFu Require Syn.Ast Vld.Ast Exe.ExecData Exe.ExecModel Exe.ExecHyps.
-From ApiFu Require Import Pipe.PipelineModel Pipe.PipelineProofs Pipe.Convert Pipe.Compose Pipe.ComposeProofs Pipe.ComposeCheck.
+From ApiFu Require Syn.Ast Vld.Ast Exe.ExecData Exe.ExecModel Exe.ExecSpec Exe.ExecHyps.
+From ApiFu Require Import Pipe.PipelineModel Pipe.PipelineProofs Pipe.Convert Pipe.Compose Pipe.SchemaAgree Pipe.ComposeProofs Pipe.ComposeCheck.
 Import ListNotations.
 Open Scope string_scope.
 
@@ -126,3 +126,18 @@ Proof. repeat split. Qed.
 
 Example contract_excludes_silent_null : ~ exec_contract (Returned (true, 0)).
 Proof. intro H; exact H. Qed.
+
+(** the hypotheses of C03_validated_type_conditions_composite are satisfiable (an accepted text
+    with fragment and inline type conditions), and a text with a type condition on a scalar is
+    rejected by the front half before the executor could panic on it *)
+Example ex_conds_instance :
+  exists d o,
+    parse_and_validate_bytes ex_VS [] (n "{ ...F o { ... on Obj { i } } } fragment F on Query { i }") = FAccepted d /\
+    Exe.ExecModel.get_operation (exe_of_syn d) [] = Exe.ExecModel.GOp o /\
+    Exe.ExecHyps.dirs_evaluable (Exe.ExecData.doc_of (exe_of_syn d) o) [] = true /\
+    Exe.ExecSpec.conds_ok ex_ES (Exe.ExecData.doc_of (exe_of_syn d) o) [] = true.
+Proof. eexists. eexists. split; [vm_compute; reflexivity|]. split; [vm_compute; reflexivity|]. split; vm_compute; reflexivity. Qed.
+
+Example ex_scalar_condition_rejected :
+  exists e es, run_ex "{ i ... on Int { i } }" "" (Some []) = PInvalid e es.
+Proof. eexists. eexists. vm_compute. reflexivity. Qed.
